@@ -9,7 +9,7 @@ THEOREMS = ["Genql.C03." + t for t in [
     "groupLoop_pure", "groups_eq_spec", "groups_first_appearance", "groups_nodup_keys", "mem_group_iff", "same_group_iff",
     "groups_partition", "count_conservation", "sum_ignores_null", "minmax_spec", "avg_is_sum_div_count", "count_spec",
     "whole_table_one_row"]] + \
-    ["Genql.GroupModel." + t for t in ["goEq_scalar", "groupLoop_on", "evalSel_group", "group_count_model", "group_count_groups", "group_count_sum"]]
+    ["Genql.GroupModel." + t for t in ["goEq_scalar", "groupLoop_on", "evalSel_group", "group_count_model", "group_count_groups", "group_count_sum", "group_pipeline"]]
 TRUSTED = ["IEEE-754 summation order is the source order in both model and Go (left fold)", "sqlparser"]
 RULE = ("random tables (0-14 rows; 1-3 grouping columns with NULL / missing keys, single-group and all-distinct shapes) x "
         "select lists mixing grouping columns, *, COUNT/SUM/MIN/MAX/AVG (same function on different columns) x WHERE x HAVING; "
@@ -169,7 +169,9 @@ LEVEL_TEXT = ("Lean theorems: the ExecGroupBy scan equals the textbook grouping 
               "group size); whole-table aggregates yield one row over the WHERE-filtered rows. End to end for the executable "
               "model (group_count_model): SELECT g, COUNT(*) AS n FROM t WHERE p GROUP BY g returns exactly the textbook grouping of "
               "the rows that passed WHERE (key reading, Go == on keys, the member list, HAVING, the select list per group all "
-              "unfolded), first-appearance order, counts adding up to the kept rows. Correspondence incl. repeated runs for "
+              "unfolded), first-appearance order, counts adding up to the kept rows; and in general (group_pipeline): WHERE, then "
+              "the textbook grouping, HAVING on the groups, the select list once per kept group on {key, *: members}, then "
+              "DISTINCT / ORDER BY / window on the projected groups. Correspondence incl. repeated runs for "
               "order stability.")
 LEVEL_NOTE = ("Group-key equality is Go `==` on scalars (modelled, panics on slices/maps mapped to errors). Aggregates proved over a "
               "lawful abstract number type; float summation order is the same left fold in model and code.")
